@@ -87,7 +87,11 @@ where
             let indent = self.make_indent();
             for c in cg.iter() {
                 let first_char = c.fragment.chars().nth(0).unwrap_or('\0');
-                if !first_char.is_whitespace() {
+                if c.fragment.trim_end().is_empty() {
+                    // A blank comment line stays `//`: adding the separating
+                    // blank would alternate with trimming it on every pass.
+                    writeln!(self.w, "{}//", indent)?;
+                } else if !first_char.is_whitespace() {
                     writeln!(self.w, "{}// {}", indent, c.fragment.trim_end())?;
                 } else {
                     writeln!(self.w, "{}//{}", indent, c.fragment.trim_end())?;
